@@ -12,6 +12,8 @@ mkdir -p lean/RSVerif/Gen
 # the checks themselves, not by setup)
 python3 translate/rs2lean.py /repo lean/RSVerif/Gen/SrcEnvelope.lean || true
 python3 translate/rs2lean_work.py /repo lean/RSVerif/Gen/SrcWork.lean || true
+python3 translate/statics.py /repo lean/RSVerif/Gen/Statics.lean || true
+python3 translate/rs2lean_codec.py /repo lean/RSVerif/Gen/SrcCodec.lean || true
 mods=""
 for f in lean/RSVerif/Properties/C*.lean; do
   m=$(basename "$f" .lean)
@@ -20,7 +22,7 @@ done
 ( cd lean && lake build rsmodel )
 # one property at a time: a module that no longer builds against the current /repo (regenerated inputs)
 # must not keep the others from being checked; its own check reports it
-for m in srcmodel srcwork $mods; do
+for m in srcmodel srcwork srccodec $mods; do
   ( cd lean && lake build $m ) || echo "setup: $m did not build; ./check.py reports it"
 done
 echo setup-ok
